@@ -544,6 +544,7 @@ theorem readIndex_sizes {sizes : List Nat} (h64 : ∀ s ∈ sizes, s < 2 ^ 64) :
 
 theorem meshCreate_printed {sh : Shape} {dim : Nat} (hs : supported sh (dim : Int) (dim : Int) = true)
     (sizes : List Nat) (hlen : sizes.length = dim + 1) (h64 : ∀ s ∈ sizes, s < 2 ^ 64)
+    (hzb : zeroBelow sizes = false)
     (stack : List Frame) (node : Node) (line : Nat) :
     meshCreate (mkSt sh dim stack node) line
       (⟨"Mesh".toList, [("size".toList, joinSp (sizes.map showNat)), ("type".toList, meshTypeStr sh dim)],
@@ -562,14 +563,15 @@ theorem meshCreate_printed {sh : Shape} {dim : Nat} (hs : supported sh (dim : In
   unfold meshCreate
   rw [a1, a2]
   simp only [splitByColon_meshTypeStr hs, readInt_showNat_dim hs, mkSt, splitWs_joinSp_showNat,
-    List.length_map, hlen, readIndex_sizes h64]
+    List.length_map, hlen, readIndex_sizes h64, hzb]
   simp
 
 
 theorem String_ofList_toList (s : String) : String.ofList s.toList = s := by simp
 
 theorem openM_mesh {sh : Shape} {dim : Nat} (hs : supported sh (dim : Int) (dim : Int) = true)
-    (sizes : List Nat) (hlen : sizes.length = dim + 1) (h64 : ∀ s ∈ sizes, s < 2 ^ 64) (line : Nat) :
+    (sizes : List Nat) (hlen : sizes.length = dim + 1) (h64 : ∀ s ∈ sizes, s < 2 ^ 64)
+    (hzb : zeroBelow sizes = false) (line : Nat) :
     openM (mkSt sh dim [Frame.root] { mesh := none, parts := [], partitions := [] }) line
       (⟨"Mesh".toList, [("size".toList, joinSp (sizes.map showNat)), ("type".toList, meshTypeStr sh dim)],
         false, false⟩ : Markup) =
@@ -578,7 +580,7 @@ theorem openM_mesh {sh : Shape} {dim : Nat} (hs : supported sh (dim : Int) (dim 
   have hc : checkAttribs line (specOf "Mesh")
       [("size".toList, joinSp (sizes.map showNat)), ("type".toList, meshTypeStr sh dim)] = .ok () := by
     simp [checkAttribs, specOf]
-  have hm := meshCreate_printed hs sizes hlen h64 [Frame.root] { mesh := none, parts := [], partitions := [] } line
+  have hm := meshCreate_printed hs sizes hlen h64 hzb [Frame.root] { mesh := none, parts := [], partitions := [] } line
   generalize hst : mkSt sh dim [Frame.root] { mesh := none, parts := [], partitions := [] } = st at hm ⊢
   generalize hmm : (⟨"Mesh".toList, [("size".toList, joinSp (sizes.map showNat)),
     ("type".toList, meshTypeStr sh dim)], false, false⟩ : Markup) = m at hm ⊢
@@ -1014,7 +1016,7 @@ def emptyNode : Node := { mesh := none, parts := [], partitions := [] }
 
 /-- the whole `<Mesh>` element: from the root frame to the root frame, with the mesh stored in the node -/
 theorem Run_writeMesh {sh : Shape} {dim : Nat} (hs : supported sh (dim : Int) (dim : Int) = true) (m : Mesh)
-    (hwf : m.wf sh dim = true) (h64 : ∀ s ∈ m.sizes, s < 2 ^ 64) (b : Str) (below : List Str) :
+    (hwf : m.wf sh dim = true) (h64 : ∀ s ∈ m.sizes, s < 2 ^ 64) (hzb : zeroBelow m.sizes = false) (b : Str) (below : List Str) :
     Run (writeMesh sh dim m) (b :: below) (mkSt sh dim [Frame.root] emptyNode) (b :: below)
       (mkSt sh dim [Frame.root] { mesh := some m, parts := [], partitions := [] }) := by
   obtain ⟨hsz, hvl, hvr, htl, htp⟩ := (Mesh.wf_iff sh dim m).1 hwf
@@ -1036,7 +1038,7 @@ theorem Run_writeMesh {sh : Shape} {dim : Nat} (hs : supported sh (dim : Int) (d
         ("type".toList, meshTypeStr sh dim)], false, false⟩ : Markup)) :=
     scan_mesh_line hs m.sizes
   have r1 := Run_open_line (k := 2) (by decide) hsc rfl rfl
-    (fun line => openM_mesh hs m.sizes hsz h64 line) (b :: below)
+    (fun line => openM_mesh hs m.sizes hsz h64 hzb line) (b :: below)
   -- vertices
   have r2 := Run_vertices_block sh dim m.sizes (List.replicate dim none) [Frame.root] emptyNode
     "Mesh".toList (b :: below) m.verts hdim.1 hvl hvr
@@ -1063,29 +1065,29 @@ theorem Run_writeMesh {sh : Shape} {dim : Nat} (hs : supported sh (dim : Int) (d
 
 
 theorem scanLoop_print {sh : Shape} {dim : Nat} (hs : supported sh (dim : Int) (dim : Int) = true) (m : Mesh)
-    (hwf : m.wf sh dim = true) (h64 : ∀ s ∈ m.sizes, s < 2 ^ 64) (i : Nat) :
+    (hwf : m.wf sh dim = true) (h64 : ∀ s ∈ m.sizes, s < 2 ^ 64) (hzb : zeroBelow m.sizes = false) (i : Nat) :
     scanLoop meshClient (writeMesh sh dim m ++ ["</FeatMeshFile>".toList] ++ [[]]) i ["FeatMeshFile".toList]
       (mkSt sh dim [Frame.root] emptyNode) =
       .ok (mkSt sh dim [] { mesh := some m, parts := [], partitions := [] }) := by
-  obtain ⟨j, hj⟩ := Run_writeMesh hs m hwf h64 "FeatMeshFile".toList [] (["</FeatMeshFile>".toList] ++ [[]]) i
+  obtain ⟨j, hj⟩ := Run_writeMesh hs m hwf h64 hzb "FeatMeshFile".toList [] (["</FeatMeshFile>".toList] ++ [[]]) i
   rw [List.append_assoc, hj]
   have e : "</FeatMeshFile>".toList = '<' :: (('/' :: "FeatMeshFile".toList) ++ ['>']) := by decide
   rw [e]
   exact final_close_line (by decide) (fun line => closeTop_root_frame sh dim _ line) _ j
 
 theorem parseBody_print {sh : Shape} {dim : Nat} (hs : supported sh (dim : Int) (dim : Int) = true) (m : Mesh)
-    (hwf : m.wf sh dim = true) (h64 : ∀ s ∈ m.sizes, s < 2 ^ 64) (i : Nat) :
+    (hwf : m.wf sh dim = true) (h64 : ∀ s ∈ m.sizes, s < 2 ^ 64) (hzb : zeroBelow m.sizes = false) (i : Nat) :
     parseBody sh dim (rootMarkup sh dim) i (writeMesh sh dim m ++ ["</FeatMeshFile>".toList] ++ [[]]) =
       .ok sh dim { mesh := some m, parts := [], partitions := [] } := by
   have hc : checkAttribs i (specOf "root") (rootMarkup sh dim).attrs = .ok () := by
     unfold rootMarkup
     simp [checkAttribs, specOf]
   have hn : (rootMarkup sh dim).name = "FeatMeshFile".toList := rfl
-  have hl := scanLoop_print hs m hwf h64 i
+  have hl := scanLoop_print hs m hwf h64 hzb i
   unfold mkSt emptyNode at hl
   unfold parseBody
   simp only [hc, hn, hl]
-  simp
+  simp [mapOutOfRange]
 
 end FeatModel.C11.RT
 
@@ -1097,24 +1099,26 @@ namespace FeatModel.C11
 theorem parse_print_mesh (sh : Shape) (dim : Nat) (m : Mesh)
     (hs : supported sh (dim : Int) (dim : Int) = true)
     (hwf : m.wf sh dim = true)
-    (h64 : ∀ s ∈ m.sizes, s < 2 ^ 64) :
+    (h64 : ∀ s ∈ m.sizes, s < 2 ^ 64)
+    (hzb : zeroBelow m.sizes = false) :
     parseMeshFile (printMeshFile sh dim { mesh := some m, parts := [], partitions := [] })
       = .ok sh dim { mesh := some m, parts := [], partitions := [] } := by
   unfold parseMeshFile
   rw [RT.splitLines_print hs m, List.cons_append, RT.readRoot_print hs]
   simp only [RT.rootType_print hs, hs, Bool.not_true, Bool.false_eq_true, if_false, Int.toNat_natCast]
-  exact RT.parseBody_print hs m hwf h64 1
+  exact RT.parseBody_print hs m hwf h64 hzb 1
 
 /-- **print ∘ parse ∘ print = print** (byte for byte) -/
 theorem print_parse_print_mesh (sh : Shape) (dim : Nat) (m : Mesh)
     (hs : supported sh (dim : Int) (dim : Int) = true)
     (hwf : m.wf sh dim = true)
-    (h64 : ∀ s ∈ m.sizes, s < 2 ^ 64) :
+    (h64 : ∀ s ∈ m.sizes, s < 2 ^ 64)
+    (hzb : zeroBelow m.sizes = false) :
     ∀ sh' dim' n', parseMeshFile (printMeshFile sh dim { mesh := some m, parts := [], partitions := [] })
         = .ok sh' dim' n' →
       printMeshFile sh' dim' n' = printMeshFile sh dim { mesh := some m, parts := [], partitions := [] } := by
   intro sh' dim' n' h
-  rw [parse_print_mesh sh dim m hs hwf h64] at h
+  rw [parse_print_mesh sh dim m hs hwf h64 hzb] at h
   injection h with h1 h2 h3
   subst h1 h2 h3
   rfl
